@@ -6,6 +6,7 @@ package main
 
 import (
 	"encoding/binary"
+	"errors"
 	"fmt"
 	"math"
 	"math/big"
@@ -32,6 +33,7 @@ type prim struct {
 	den      string
 	code     uint32
 	val      bool
+	flag     bool
 	mode     int
 	must     []uint32
 	item     []prim
@@ -74,9 +76,18 @@ func parseD(toks []string) ([]prim, []string) {
 		switch t {
 		case ")":
 			return out, toks[1:]
-		case "b", "y", "u", "t", "l", "a":
+		case "b", "y", "u", "t", "l", "a", "R", "D":
 			out = append(out, prim{k: t})
 			toks = toks[1:]
+		case "g":
+			out = append(out, prim{k: t, den: toks[1]})
+			toks = toks[2:]
+		case "A":
+			out = append(out, prim{k: t, flag: toks[1] == "1"})
+			toks = toks[2:]
+		case "W":
+			out = append(out, prim{k: t, val: toks[1] == "1", flag: toks[2] == "1"})
+			toks = toks[3:]
 		case "n", "f", "i", "k":
 			out = append(out, prim{k: t, n: atoi(toks[1])})
 			toks = toks[2:]
@@ -131,8 +142,14 @@ func showD(p []prim) string {
 	var s []string
 	for _, x := range p {
 		switch x.k {
-		case "b", "y", "u", "t", "l", "a":
+		case "b", "y", "u", "t", "l", "a", "R", "D":
 			s = append(s, x.k)
+		case "g":
+			s = append(s, x.k, x.den)
+		case "A":
+			s = append(s, x.k, b01(x.flag))
+		case "W":
+			s = append(s, x.k, b01(x.val), b01(x.flag))
 		case "n", "f", "i", "k":
 			s = append(s, x.k, strconv.Itoa(x.n))
 		case "v", "s":
@@ -181,10 +198,13 @@ func den(tok string) serializer.TypeDenotationType {
 	panic("bad type denotation " + tok)
 }
 
+var errAbort = errors.New("aborted by the caller")
+
 type dtrace struct {
-	vals  []string
-	iters int
-	k     int // rotates the destination types of ReadNum
+	vals   []string
+	misuse []string // contract violations of the chain helpers seen by the interpreter (independent Go oracle)
+	iters  int
+	k      int // rotates the destination types of ReadNum
 }
 
 func keep(err error) error { return err }
@@ -354,6 +374,10 @@ func runD(p []prim, d *serializer.Deserializer, tr *dtrace) {
 		case "l":
 			// ReadPayloadLength is not a chain call: it ignores (and does not set) the sticky error;
 			// its own error is put into the chain the way decodeStructFields aborts on it.
+			if before {
+				// (a caller looks at the error before it goes on: after a failure the call would still move the offset)
+				break
+			}
 			n, err := d.ReadPayloadLength()
 			if err != nil {
 				d.AbortIf(func(error) error { return err })
@@ -364,6 +388,60 @@ func runD(p []prim, d *serializer.Deserializer, tr *dtrace) {
 			}
 		case "a":
 			d.ConsumedAll(func(_ int, err error) error { return err })
+		case "R":
+			// RemainingBytes is not a chain call either: it slices d.src[d.offset:] whatever the sticky error is
+			// (it can only be evaluated because the offset never exceeds the input: C02_deser_offset_le)
+			rem := d.RemainingBytes()
+			val, has = hx.Hex(rem), true
+		case "D":
+			ran := false
+			d.Do(func() { ran = true })
+			if ran {
+				val, has = "#0", true
+			}
+			if ran == before {
+				tr.misuse = append(tr.misuse, "Do ran its callback although the chain had failed (or skipped it although it had not)")
+			}
+		case "g":
+			// GetObjectType as a call of its own (peeks, never moves the offset); its error aborts the chain
+			off0, _ := d.Done()
+			ty, err := d.GetObjectType(den(x.den))
+			if off1, _ := d.Done(); off1 != off0 {
+				tr.misuse = append(tr.misuse, fmt.Sprintf("GetObjectType moved the offset from %d to %d", off0, off1))
+			}
+			if err != nil {
+				d.AbortIf(func(error) error { return err })
+			} else {
+				val, has = "#"+strconv.FormatUint(uint64(ty), 10), true
+			}
+		case "A":
+			d.AbortIf(func(error) error {
+				if x.flag {
+					return errAbort
+				}
+
+				return nil
+			})
+		case "W":
+			off0, _ := d.Done()
+			called := false
+			d.WithValidation(seriMode(x.val), func(read []byte, err error) error {
+				called = true
+				if len(read) != off0 || err != nil {
+					tr.misuse = append(tr.misuse, fmt.Sprintf("WithValidation handed %d read bytes / err %v to its producer at offset %d", len(read), err, off0))
+				}
+				if x.flag {
+					return errAbort
+				}
+
+				return nil
+			})
+			if called != (x.val && !before) {
+				tr.misuse = append(tr.misuse, "WithValidation called its producer in the wrong mode / after a failure")
+			}
+			if called && !x.flag {
+				val, has = "#1", true
+			}
 		case "q":
 			rules := &serializer.ArrayRules{Min: uint(x.min), Max: uint(x.max), ValidationMode: serializer.ArrayValidationMode(x.mode)}
 			d.ReadSequenceOfObjects(func(b []byte) (int, error) {
@@ -400,6 +478,9 @@ func runD(p []prim, d *serializer.Deserializer, tr *dtrace) {
 	}
 }
 
+// lastMisuse: what the interpreter of the last "d" request saw the chain helpers do against their contract.
+var lastMisuse []string
+
 // execD executes "d HEX prog...".
 func execD(f []string) string {
 	out := ""
@@ -417,9 +498,10 @@ func execDRaw(f []string) string {
 	tr := &dtrace{}
 	runD(prog, d, tr)
 	n, err := d.Done()
+	lastMisuse = tr.misuse
 	if err != nil {
-		// the offset Done() reports next to an error is discarded by every caller and is not compared
-		return fmt.Sprintf("err %d", tr.iters)
+		// the offset Done() reports next to an error is compared too (model: derr)
+		return fmt.Sprintf("err %d %d", n, tr.iters)
 	}
 
 	return fmt.Sprintf("ok %d %d %s", n, tr.iters, sx.ShowVals(tr.vals))
